@@ -341,7 +341,7 @@ def build_c05(g, cases, arcs, quick, rnd):
                         "cb2": cosb(lat2, E), "sinsig": E_(abs(math.sin(s_ / a))), "ell": e[0], "in": [lat1, lon1, lat2, lon2]}
             if abs(lat1) < 89.0 and abs(lat2) < 89.0:
                 evs.append(g.ev("ICL", tag, iclair))
-            if rep < 2 and (not quick or rnd.random() < 0.34):
+            if rep < 2 and (not quick or rnd.random() < 0.17):
                 def iexact():
                     ab = g.inverse(lat1, lon1, lat2, lon2, E)
                     if not g.oblique(lat1, ab["f"][1], E):
